@@ -848,13 +848,28 @@ func (w *World) oracleCodes() {
 		if rr.rep == nil {
 			continue
 		}
+		if bytes.Contains(rr.tx.Body, []byte(actors.SecretMarker)) || bytes.Contains(rr.tx.Header, []byte(actors.SecretMarker)) {
+			s.Violate("C16/detail-disclosed/queue-report", "failure report dsn%d contains the text of an internal error", rr.tx.N)
+		}
 		for _, x := range rr.rep.Rcpts {
 			f := strings.Fields(x.Diagnostic)
 			if len(f) >= 3 && f[0] == "smtp;" && len(x.Status) > 0 {
 				if f[1][:1] != f[2][:1] || f[1][:1] != x.Status[:1] {
 					s.Violate("C16/class-mismatch/queue-report", "failure report for %s: Status %s, Diagnostic-Code %q", x.Addr, x.Status, x.Diagnostic)
 				}
+				// the class in the report agrees with how the queue treated the
+				// failure: a recipient reported with 4.x.x was retried until
+				// max_tries, one reported with 5.x.x was not retried after it
+				if strings.Contains(x.Diagnostic, "tempfail") && x.Status[:1] != "4" {
+					s.Violate("C16/retry-class-mismatch/queue-report", "temporary failure reported with Status %s: %q", x.Status, x.Diagnostic)
+				}
+				if strings.Contains(x.Diagnostic, "permfail") && x.Status[:1] != "5" {
+					s.Violate("C16/retry-class-mismatch/queue-report", "permanent failure reported with Status %s: %q", x.Status, x.Diagnostic)
+				}
 			}
 		}
 	}
+	// retried <=> temporary: the retry discipline of C01 with the nested error
+	// values of this profile
+	w.oracleConservation("C16", false)
 }
